@@ -3,16 +3,18 @@
 usage: mutant.py [-R] <patch.diff> <Cxx> [<Cxx> ...] [--tier quick|thorough] [--tests]
   -R       apply the patch in reverse (e.g. to undo a fix: commit)
   --tests  also run the repository's pinned suite on the scratch copy (baseline_check)
+  --show   print the head of each replay file written for a violation
 Prints each check's exit code and its VIOLATION / KNOWN-FINDING / UNDECIDED lines."""
 import os, shutil, subprocess, sys, tempfile
 args = sys.argv[1:]
 rev = '-R' in args
 tests = '--tests' in args
+show = '--show' in args
 tier = 'quick'
 if '--tier' in args:
     tier = args[args.index('--tier') + 1]
     args.remove('--tier'); args.remove(tier)
-args = [a for a in args if a not in ('-R', '--tests')]
+args = [a for a in args if a not in ('-R', '--tests', '--show')]
 patch, props = os.path.abspath(args[0]), args[1:]
 verif = os.path.dirname(os.path.dirname(os.path.abspath(__file__)))
 tmp = tempfile.mkdtemp(prefix='pfv-mut-')
@@ -33,6 +35,10 @@ try:
         print('%s exit=%d' % (p, r.returncode))
         for l in lines[:12]:
             print('   ', l[:300])
+        if show:
+            import glob
+            for f in sorted(glob.glob(tmp + '/out/replay/%s/*.json' % p))[:6]:
+                print('   ---', os.path.basename(f)); print('   ' + open(f).read()[:1800].replace('\n', '\n   '))
         if r.returncode not in (0, 1, 2):
             print(r.stdout[-800:], r.stderr[-800:])
 finally:
